@@ -87,9 +87,14 @@ NLDefs == { PD(mo, R(2,1), R(3,2), IF mo = "cpanel" THEN R(4,1) ELSE RZero, RZer
 NLState(pd, amp) == Fn([k \in 1..(3 * pd.m * pd.n) |-> RMul(amp, R(((k * 5 + 2) % 9) - 4, 16))])
 NLRequests(pd) ==
     IF pd.m = 4 THEN { [q |-> "kGc", c |-> NLState(pd, ROne), NL |-> FALSE, taper |-> Uniform] @@ NoPlace }
-    ELSE { [q |-> qq, c |-> NLState(pd, amp), taper |-> Uniform] @@ NoPlace : qq \in {"fint", "kT"}, amp \in {ROne, R(1,8)} }
-         \cup { [q |-> qq, c |-> NLState(pd, ROne), taper |-> <<ROne, R(1,4), R(-3,8)>>] @@ NoPlace : qq \in {"fint", "kT"} }
-         \cup { [q |-> "kGc", c |-> NLState(pd, ROne), NL |-> nl, taper |-> Uniform] @@ NoPlace : nl \in BOOLEAN }
+    ELSE LET amps == IF Tier = "quick" THEN {ROne} ELSE {ROne, R(1,8)}
+             (* quick: the costly stencil invariants of the uniform tangent on the flat model only *)
+             kTuni == IF Tier = "quick" /\ pd.model = "cpanel" THEN {} ELSE
+                        { [q |-> "kT", c |-> NLState(pd, amp), taper |-> Uniform] @@ NoPlace : amp \in amps }
+         IN { [q |-> "fint", c |-> NLState(pd, amp), taper |-> Uniform] @@ NoPlace : amp \in amps }
+            \cup kTuni
+            \cup { [q |-> qq, c |-> NLState(pd, ROne), taper |-> <<ROne, R(1,4), R(-3,8)>>] @@ NoPlace : qq \in {"fint", "kT"} }
+            \cup { [q |-> "kGc", c |-> NLState(pd, ROne), NL |-> nl, taper |-> Uniform] @@ NoPlace : nl \in BOOLEAN }
 
 VARIABLE phase
 EmitInit == PInit /\ phase = 0
